@@ -218,7 +218,7 @@ def main(argv=None):
 
     wall = round(time.time() - t0, 2)
     if a.verbose:
-        for sm in samples:
+        for sm in sorted(samples, key=lambda x: x["wall_s"] or 0):
             print("  %-40s %-12s %-14s paths=%s z3q=%s z3s=%s wall=%s twin=%s" % (
                 sm["obligation"], sm["status"], sm["verdict"], sm["paths"], sm["z3_queries"], sm["z3_seconds"], sm["wall_s"], sm["twin"]))
     for name, detail in inconclusive:
